@@ -18,7 +18,11 @@ open SigpyVerif.Gen.TrapGrad
 
 /-- the float operations read over ℝ -/
 noncomputable def opsR : Ops ℝ :=
-  ⟨fun x => ⌈x⌉₊, fun x y z => ⌈Real.sqrt x / y / z⌉₊, fun x s z => ⌊x / Real.sqrt s / z⌋₊⟩
+  ⟨fun _ x => ⌈x⌉₊, fun x y z => ⌈Real.sqrt x / y / z⌉₊, fun x s z => ⌊x / Real.sqrt s / z⌋₊,
+   fun _ a b => decide (a < b)⟩
+
+@[simp] theorem opsR_lt (site : ℕ) (a b : ℝ) : opsR.lt site a b = decide (a < b) := rfl
+@[simp] theorem opsR_ceil (site : ℕ) (x : ℝ) : opsR.ceil site x = ⌈x⌉₊ := rfl
 
 theorem sum_range_div (n : ℕ) (d : ℝ) :
     ((List.range n).map fun k => ((k : ℕ) : ℝ) / d).sum = (n : ℝ) * ((n : ℝ) - 1) / 2 / d := by
